@@ -184,6 +184,14 @@ def main():
             ck.violation("after a crash before storage write %d (inside %s %s) the reloaded location differs from the acknowledged history at ids %s it does not name (%s state)" % (
                 c["crashAt"], c["ops"][kcrash]["op"], c["ops"][kcrash].get("id", ""), sorted(bad), c["state"]),
                 {"case": c2, "expected_store": expected, "got_store": got}, tag="crash")
+        # a write that replaces a stored document is one storage write: a crash inside the operation leaves the old or the new document,
+        # never none (enableRule(true) and the removals are the operations that delete)
+        opk = c["ops"][kcrash]
+        if opk["op"] in ("addFact", "addRule", "setParents") or (opk["op"] == "enableRule" and not opk.get("enable")):
+            lost = [i for i in named if i in expected and i not in got]
+            if lost:
+                ck.violation("a crash before storage write %d inside %s lost the previously stored document %s: an overwrite left nothing behind (%s state)" % (
+                    c["crashAt"], opk["op"], lost, c["state"]), {"case": c2, "expected_store": expected, "got_store": got}, tag="crash-lost")
         # memory after reopen must equal storage
         if canon({k: canon_fact(v) for k, v in snap.get("facts", {}).items()}) != canon({k: canon_fact(v) for k, v in snap.get("store", {}).items()}):
             ck.violation("after reopening, memory and storage differ (%s state)" % c["state"], {"case": c2, "snapshot": snap}, tag="reopen")
